@@ -113,6 +113,15 @@ func c19(c *core.Ctx) {
 		n = lockedAccesses(c, la, "Manager.evilDeputies", c.FieldVar("chain/deputynode.Manager", "evilDeputies"), "deputynode.Manager.edLock")
 		c.Floor("evilDeputies/functions", n, 2)
 
+		// read-modify-write of a stored block (appending confirms to a stable block) is atomic only under ChainDatabase.RW
+		sb := c.Method("store.ChainDatabase", "setBlock2DB")
+		_, sbSites := callersOf(c, sb)
+		for _, site := range sbSites {
+			ok, why := la.Held(site.Instr, "store.ChainDatabase.RW", core.WriteHeld)
+			c.Check("lock/setBlock2DB@"+shortFn(site.Caller), "lockset", ok, site.Instr.Pos(), "%s rewrites a stored block (load, append confirms, write back): it must hold ChainDatabase.RW for writing, or two savers lose each other's confirm: %s", shortFn(site.Caller), orOK(why))
+		}
+		c.Floor("setBlock2DB/call-sites", len(sbSites), 1)
+
 		// FileQueue.Offset has no lock of its own: all accesses after construction/start-up must share one common lock
 		off := c.FieldVar("store.FileQueue", "Offset")
 		universe := la.Universe(scopeFns)
